@@ -61,6 +61,7 @@ type sworld struct {
 	heldRep map[int][]int
 	pubSeen int
 	out     func(cmd, obs J)
+	lite    bool // store dumps without snapshots and user documents (their timing is schedule-dependent)
 }
 
 var theKit *srvkit.Kit
@@ -566,8 +567,19 @@ func bytesOf(v interface{}) []byte {
 
 func (w *sworld) stepStore() (J, J, bool) {
 	obs := J{}
-	hung := guarded(obs, func() { obs["store"] = w.storeJ() })
-	return J{"k": "store"}, obs, hung
+	hung := guarded(obs, func() {
+		st := w.storeJ()
+		if w.lite {
+			st["snapshots"] = []interface{}{}
+			st["userDocs"] = []interface{}{}
+		}
+		obs["store"] = st
+	})
+	cmd := J{"k": "store"}
+	if w.lite {
+		cmd["lite"] = true
+	}
+	return cmd, obs, hung
 }
 
 func (w *sworld) storeJ() J {
